@@ -705,3 +705,112 @@ func ruleP8(p *Prog, r *Report) {
 	r.Observe("fields dereferenced unconditionally by accessors: " + strings.Join(req, ", "))
 	r.Floor(R, "decode-scope literals with required fields", 2, n)
 }
+
+// P9 no per-reference deep copy of shared extra data (C19: memory in proportion to the input).
+//
+// The inlined-extra-data section of a slab is written once and referred to by any number of inlined elements.
+// A decoder that is invoked once per referring element (it receives the slab-wide []ExtraData) may copy
+// fixed-size items of the shared entry whose number the element's own encoding bounds (the digests: the value
+// count is checked against them), but a deep copy of a variable-size object of the shared entry - a key storable -
+// per referring element makes the decoded size the product of the number of referrers and the size of the shared
+// object: quadratic in the length of the register (finding F12).
+func ruleP9(p *Prog, r *Report) {
+	const R = "P9"
+	scope, _ := p.decodeScope()
+	n := 0
+	isSharedParam := func(v ssa.Value) bool {
+		prm, ok := v.(*ssa.Parameter)
+		if !ok {
+			return false
+		}
+		sl, ok := prm.Type().Underlying().(*types.Slice)
+		if !ok {
+			return false
+		}
+		nt := namedOf(sl.Elem())
+		return nt != nil && nt.Obj().Name() == "ExtraData"
+	}
+	var derived func(v ssa.Value, depth int) bool
+	derived = func(v ssa.Value, depth int) bool {
+		if depth > 12 || v == nil {
+			return false
+		}
+		v = canon(v)
+		if isSharedParam(v) {
+			return true
+		}
+		switch x := v.(type) {
+		case *ssa.UnOp:
+			if x.Op == token.MUL {
+				return derived(x.X, depth+1)
+			}
+		case *ssa.FieldAddr:
+			return derived(x.X, depth+1)
+		case *ssa.Field:
+			return derived(x.X, depth+1)
+		case *ssa.IndexAddr:
+			return derived(x.X, depth+1)
+		case *ssa.Index:
+			return derived(x.X, depth+1)
+		case *ssa.TypeAssert:
+			return derived(x.X, depth+1)
+		case *ssa.Extract:
+			if ta, ok := x.Tuple.(*ssa.TypeAssert); ok && x.Index == 0 {
+				return derived(ta.X, depth+1)
+			}
+		case *ssa.Slice:
+			return derived(x.X, depth+1)
+		case *ssa.Phi:
+			for _, e := range x.Edges {
+				if derived(e, depth+1) {
+					return true
+				}
+			}
+		}
+		return false
+	}
+	for _, f := range sortedFuncs(p, scope) {
+		hasShared := false
+		for _, prm := range f.Params {
+			if isSharedParam(prm) {
+				hasShared = true
+			}
+		}
+		if !hasShared {
+			continue
+		}
+		n++
+		var bad ssa.Instruction
+		what := ""
+		eachInstr(f, func(in ssa.Instruction) {
+			c, ok := in.(ssa.CallInstruction)
+			if !ok || bad != nil {
+				return
+			}
+			nm := calleeName(c)
+			ln := strings.ToLower(nm)
+			if !strings.HasPrefix(ln, "copy") && !strings.HasPrefix(ln, "clone") {
+				return
+			}
+			rv := callRecv(c)
+			if rv == nil || !derived(rv, 0) {
+				return
+			}
+			// a deep copy of an object of open size: the receiver is an interface value (a Storable, a TypeInfo)
+			if _, isIface := rv.Type().Underlying().(*types.Interface); !isIface {
+				return
+			}
+			bad = in
+			what = nm + " of a " + typeString(rv.Type())
+		})
+		r.Decide(bad == nil, R, "shared-extra-data-deep-copy:"+p.Name(f), func() string {
+			if bad != nil {
+				return p.InstrPos(bad)
+			}
+			return p.Pos(f.Pos())
+		}(),
+			"no variable-size object of the shared extra data is deep-copied per referring element",
+			"a decoder that runs once per inlined element deep-copies a variable-size object of the slab's shared extra data ("+what+"): N elements referring to one entry with a key of S bytes make the decoder allocate about N*S bytes for a register of about S+17N bytes - memory quadratic in the input length")
+	}
+	r.Floor(R, "per-element decoders that receive the shared extra data", 3, n)
+}
